@@ -131,6 +131,27 @@ struct Wide {
     d: (),
     e: [u16; 0],
 }
+// raw identifiers: serde names the field/variant without the r# prefix
+#[derive(Serialize, Schema)]
+struct RawIds {
+    r#type: u8,
+    plain: u16,
+    r#fn: bool,
+}
+#[allow(non_camel_case_types)]
+#[derive(Serialize, Schema)]
+enum RawVariants {
+    r#match,
+    Other { r#loop: u8 },
+    r#box(u8),
+}
+// field-less forms of every kind side by side
+#[derive(Serialize, Schema)]
+enum EmptyForms {
+    U,
+    T(),
+    S {},
+}
 
 pub fn run(a: &Args) {
     let seed = a.num("seed", 1);
@@ -266,6 +287,13 @@ pub fn run(a: &Args) {
             r: Err("e".into()),
             t: (1, (2, 3), [4, 5]),
         });
+        emit(o, "RawIds", &RawIds { r#type: r.gen(), plain: r.gen(), r#fn: true });
+        emit(o, "RawVariants::match", &RawVariants::r#match);
+        emit(o, "RawVariants::Other", &RawVariants::Other { r#loop: r.gen() });
+        emit(o, "RawVariants::box", &RawVariants::r#box(r.gen()));
+        emit(o, "EmptyForms::U", &EmptyForms::U);
+        emit(o, "EmptyForms::T", &EmptyForms::T());
+        emit(o, "EmptyForms::S", &EmptyForms::S {});
         emit(o, "Wide", &Wide { a: r.gen(), b: r.gen(), c: NonZeroU64::new(5).unwrap(), d: (), e: [] });
     }
     out.0.flush().unwrap();
